@@ -132,6 +132,10 @@ def gen_value(rng, db: proto.TypeDB, t: dict, mode: str, tags: set, invalid: typ
         return None
     if k in ('bool', 'uint', 'int', 'float'):
         m = mode if mode != 'mix' else rng.choice(['rand', 'rand', 'edge', 'out', 'zero'])
+        if m == 'full':         # in the WIRE range (every target can hold it), so that only the size is extreme
+            if k in ('uint', 'int'):
+                return wire_range(t)[1]
+            m = 'max' if k == 'bool' else 'rand'
         return gen_prim(rng, t, m, tags)
     if k == 'farr':
         return [gen_value(rng, db, t['elem'], mode, tags, invalid) for _ in range(t['n'])]
@@ -143,7 +147,7 @@ def gen_value(rng, db: proto.TypeDB, t: dict, mode: str, tags: set, invalid: typ
             tags.add('array_len_over_cap')
         elif mode == 'zero' or mode == 'min':
             n = 0
-        elif mode == 'max':
+        elif mode in ('max', 'full'):
             n = cap
         else:
             n = rng.choice([0, cap, cap, 1 if cap >= 1 else 0, rng.randint(0, cap), rng.randint(0, cap)])
@@ -159,7 +163,10 @@ def gen_comp_value(rng, db: proto.TypeDB, c: dict, mode: str, tags: set, invalid
             invalid['done'] = True
             tags.add('invalid_union_tag')
             return {'tag': rng.choice([n, n, 255, n + 1]), 'value': None}
-        i = 0 if mode == 'zero' else n - 1 if mode == 'max' else rng.randrange(n)
+        if mode == 'full':      # the option with the largest serialized representation
+            i = max(range(n), key=lambda j: (c['fields'][j]['type']['max_bits'], j))
+        else:
+            i = 0 if mode == 'zero' else n - 1 if mode == 'max' else rng.randrange(n)
         tags.add('union_tag_%s' % ('first' if i == 0 else 'last' if i == n - 1 else 'mid'))
         return {'tag': i, 'value': gen_value(rng, db, c['fields'][i]['type'], mode, tags, invalid)}
     return [gen_value(rng, db, f['type'], mode, tags, invalid) for f in c['fields']]
@@ -184,13 +191,57 @@ def has_node(db: proto.TypeDB, c: dict, what: str, seen=None) -> bool:
     return any(in_type(f['type']) for f in c['fields'])
 
 
+def _varr_lists(db: proto.TypeDB, t: dict, v, acc: list) -> None:
+    k = t['k']
+    if k == 'farr':
+        for e in v:
+            _varr_lists(db, t['elem'], e, acc)
+    elif k == 'varr':
+        if v:
+            acc.append((t, v))
+        for e in v:
+            _varr_lists(db, t['elem'], e, acc)
+    elif k == 'ref':
+        _varr_lists_comp(db, db.comp(t['id']), v, acc)
+
+
+def _varr_lists_comp(db: proto.TypeDB, c: dict, v, acc: list) -> None:
+    if c['kind'] == 'union':
+        if 0 <= v['tag'] < len(c['fields']):
+            _varr_lists(db, c['fields'][v['tag']]['type'], v['value'], acc)
+    else:
+        for f, x in zip(c['fields'], v):
+            _varr_lists(db, f['type'], x, acc)
+
+
+def gen_full(rng, db: proto.TypeDB, c: dict, short_by: int, tags: set):
+    """the value with the LARGEST serialized representation (every variable-length array at capacity, every union holding its
+    largest option: nested delimited objects at their maximum size), or - short_by = 1, 2 - the same with ONE variable-length
+    array of small elements shortened by one or two elements (nested objects just below their maximum size)"""
+    v = gen_comp_value(rng, db, c, 'full', tags, None)
+    tags.add('value_at_max_size' if short_by == 0 else 'value_%d_below_max_size' % short_by)
+    if short_by:
+        lists: list = []
+        _varr_lists_comp(db, c, v, lists)
+        small = [(t, l) for t, l in lists if t['elem']['max_bits'] <= 16] or lists
+        if small:
+            t, l = rng.choice(small)
+            del l[max(0, len(l) - short_by):]
+    return v
+
+
 def gen_values(rng, db: proto.TypeDB, tid: str, n: int) -> typing.List[typing.Tuple[typing.Any, typing.List[str]]]:
     c = db.comp(tid)
-    plan = ['zero', 'max', 'min', 'edge', 'out', 'out']
+    plan = ['zero', 'max', 'min', 'edge', 'out', 'out', 'full', 'full1', 'full2']
     inv = [w for w in ('len', 'tag') if has_node(db, c, w)]
     out = []
     for i in range(n):
         tags: set = set()
+        if i < len(plan) and plan[i].startswith('full'):
+            v = gen_full(rng, db, c, int(plan[i][4:] or 0), tags)
+            tags.add('mode_full')
+            out.append((v, sorted(tags)))
+            continue
         if i < len(plan):
             mode, invalid = plan[i], None
         elif inv and i < len(plan) + 2 * len(inv):
